@@ -75,7 +75,7 @@ def summaries(g, counter=None, bound=None, bound_const=None, flag_fields=(), slo
         return None
 
     def step(st, n, lab):
-        lo, hi, k, pred, flags, sets, emit, other, comp, empty, bad = st
+        lo, hi, k, pred, flags, sets, emit, other, comp, empty, bad, pops, pushes, subs, calls = st
         d, v = sw_value(lab)
         if d is not None and v in (0, 1):
             c = cmp_of(d)
@@ -118,6 +118,12 @@ def summaries(g, counter=None, bound=None, bound_const=None, flag_fields=(), slo
                 elif dd[0] == 'discr' and v == 0 and slot_classes and recv_class(dd[1]) in slot_classes:
                     empty = True
         kind = n['kind']
+        if d is not None and v == 1:
+            dd0 = strip(d)
+            if dd0[0] == 'discr' and _is_pop(strip(dd0[1])):
+                pops = min(pops + 1, 3)
+        if kind == 'call' and not n['ctx'] and n['name'] in ('std::option::Option::unwrap', 'std::option::Option::expect') and n['args'] and _is_pop(strip(n['args'][0])):
+            pops = min(pops + 1, 3)
         if kind == 'assign':
             f = _last_field(n['lhs'])
             if counter is not None and f == counter and strip(n['lhs'])[0] == 'field':
@@ -132,6 +138,18 @@ def summaries(g, counter=None, bound=None, bound_const=None, flag_fields=(), slo
                     k += dk
             elif f in flag_fields and const_bool(n['rhs']) is not None:
                 sets = tuple(sorted(set((a, b) for a, b in sets if a != f) | {(f, 1 if const_bool(n['rhs']) else 0)}))
+        if kind == 'call' and n['args'] and not n['ctx']:
+            tail = n['name'].rsplit('::', 1)[-1]
+            r0, s0 = access_path(n['args'][0])
+            if r0[0] == 'arg' and r0[1] == 1 and n['name'].startswith(('std::collections::VecDeque', 'std::vec::Vec', 'smallvec::')):
+                if tail in ('pop_front', 'pop_back', 'pop'):
+                    pass   # counted when the popped value is actually obtained (Some edge / unwrap), see below
+                elif tail in ('push_back', 'push_front', 'push'):
+                    pushes = min(pushes + 1, 3)
+        if kind in ('call', 'enter') and n['name'] == 'observable::Observable::actual_subscribe' and not n['ctx']:
+            subs = min(subs + 1, 3)
+        if kind == 'call' and n['name'] in FN_CALLS and n.get('callee') and not n['ctx']:
+            calls = min(calls + 1, 3)
         m = down_method(n)
         if m == 'next':
             a = n['args'][1] if len(n['args']) > 1 else ('unknown', '')
@@ -145,16 +163,20 @@ def summaries(g, counter=None, bound=None, bound_const=None, flag_fields=(), slo
         emit = min(emit, 3)
         lo = None if lo is None or lo < -LIM else lo
         hi = None if hi is None or hi > LIM else hi
-        return (lo, hi, k, pred, flags, sets, emit, other, comp, empty, bad)
+        return (lo, hi, k, pred, flags, sets, emit, other, comp, empty, bad, pops, pushes, subs, calls)
 
-    init = (init_lo, None, 0, None, (), (), 0, False, False, False, None)
+    init = (init_lo, None, 0, None, (), (), 0, False, False, False, None, 0, 0, 0, 0)
     reached, pred = explore(g, init, step)
     out = []
     for key in ret_states(g, reached):
-        lo, hi, k, p, flags, sets, emit, other, comp, empty, bad = key[1]
-        out.append(({'lo': lo, 'hi': hi, 'k': k, 'pred': p, 'flags': dict(flags), 'sets': dict(sets), 'emit': emit, 'other': other,
+        lo, hi, k, p, flags, sets, emit, other, comp, empty, bad, pops, pushes, subs, calls = key[1]
+        out.append(({'pops': pops, 'pushes': pushes, 'subs': subs, 'calls': calls, 'lo': lo, 'hi': hi, 'k': k, 'pred': p, 'flags': dict(flags), 'sets': dict(sets), 'emit': emit, 'other': other,
                      'complete': comp, 'empty': empty, 'bad': bad}, key))
     return out, pred
+
+
+def _is_pop(e):
+    return e[0] == 'call' and e[1].rsplit('::', 1)[-1] in ('pop_front', 'pop_back', 'pop') and e[1].startswith(('std::collections::VecDeque', 'std::vec::Vec', 'smallvec::'))
 
 
 def _is_queue_head(e):
